@@ -1,8 +1,8 @@
 //! Implementation side of the correspondence (DESIGN.md 2.4).
 //! stdin : "<case-id> <component> <xval>" per line
 //! stdout: "<case-id> <xval>" per line
-mod xval;
-mod c09;
+pub mod xval;
+include!(concat!(env!("OUT_DIR"), "/mods.rs"));
 
 use std::io::{BufRead, Write};
 use xval::X;
@@ -16,11 +16,7 @@ pub fn guarded(f: impl FnOnce() -> X) -> X {
 }
 
 fn dispatch(comp: &str, x: &X) -> X {
-    match comp {
-        "range.serve" => c09::serve(x),
-        "range.parse" => c09::parse(x),
-        _ => X::L(vec![X::N(98)]),
-    }
+    dispatch_all(comp, x).unwrap_or_else(|| X::L(vec![X::N(98)]))
 }
 
 fn main() {
